@@ -109,7 +109,7 @@ class Sign(Machine):
             "entropy": "sim" if s.chance(0.9) else "real",
             "rare_sig": s.choice([None, "r", "s", "r", "s", "r2", "s2"]),
             "faults_enabled": s.chance(0.5),
-            "fault_kinds": s.subset(["crash", "enospc", "eio_read", "short_read", "short_write", "open_fail",
+            "fault_kinds": s.subset(["crash", "enospc", "eio_read", "short_read", "short_write", "write_fail", "open_fail",
                                      "stat_fail"], 0.6),
             "rerun_after_crash": s.chance(0.8),
             "env_fallback": s.chance(0.3),
